@@ -818,22 +818,42 @@ def run(ctx, deep=False):
         ctx.case(("text-template", tc))
     # ---- engine lifecycle: limits change at connect
     life_cases = []
-    for _ in range(250 if not thorough else 2500):
+    _long = "ix_" + "abcdefghij" * 9
+    # always-run: one name rendered under a large limit, then again after the limit shrank (connect
+    # lowers it / the index and constraint limits differ) - the second rendering must obey the new limit
+    life_directed = [
+        (128, None, None, None, None, [("i", True, _long), ("c", 30), ("i", True, _long), ("k", True, _long)]),
+        (255, None, None, None, None, [("k", True, _long), ("c", 63), ("k", True, _long), ("c", 30), ("k", True, _long), ("i", True, _long)]),
+        (128, None, None, 64, 16, [("c", 128), ("i", True, _long), ("k", True, _long), ("i", True, _long)]),
+        (128, None, None, 16, 64, [("c", 128), ("k", True, _long), ("i", True, _long), ("k", True, _long)]),
+        (63, None, 20, None, None, [("i", True, _long), ("l", "lbl" + "q" * 40), ("c", 30), ("i", True, _long), ("l", "lbl" + "q" * 40)]),
+    ]
+    for _it in range(len(life_directed) + (250 if not thorough else 2500)):
         class_limit = rng.choice([30, 63, 128, 255])
         user_max = rng.choice([None, None, None, 20, 64])
         label_length = rng.choice([None, None, 6, 10, 20, 29, 30, 31, 40, 64, 100])
         max_index = rng.choice([None, None, 0, 16, 64])
         max_constraint = rng.choice([None, None, 0, 16, 64])
         ops = []
+        # the SAME name is rendered again and again by one long-lived preparer (CREATE / ALTER /
+        # DROP, index and constraint paths, before and after the limit changes at connect): two of
+        # three cases draw their names from a pool of one or two names
+        mknm = lambda: rng.choice(["ix_", "uq_", "x"]) + "".join(rng.choice(WORD) for _ in range(rng.choice([3, 20, 40, 61, 90, 140])))  # noqa: E731
+        pool = [mknm() for _ in range(rng.choice([0, 1, 1, 2]))]
         for _ in range(rng.randint(2, 9)):
             k = rng.random()
             if k < 0.3:
                 ops.append(("c", rng.choice([None, 0, 8, 20, 30, 30, 63, 128])))
             elif k < 0.75:
-                nm = rng.choice(["ix_", "uq_", "x"]) + "".join(rng.choice(WORD) for _ in range(rng.choice([3, 20, 40, 61, 90, 140])))
+                nm = rng.choice(pool) if pool else mknm()
                 ops.append((rng.choice("ik"), rng.random() < 0.75, nm))
+                if pool:
+                    ctx.count("life:name-from-pool")
             else:
                 ops.append(("l", "lbl" + "".join(rng.choice(WORD) for _ in range(rng.choice([2, 10, 25, 38, 60])))))
+        if _it < len(life_directed):
+            class_limit, user_max, label_length, max_index, max_constraint, ops = life_directed[_it]
+            ctx.count("life:directed")
         try:
             outs, dd = real_life(class_limit, user_max, label_length, max_index, max_constraint, ops)
         except Exception as ex:  # noqa: BLE001
